@@ -57,6 +57,7 @@ THEOREMS = [
     "apply_changes", "unchanged_noop", "include_unchanged_partition",
     "filter_subset", "filter_complete", "filter_parent_closed",
     "precise_duplicate_witness", "displaced_entry_witness", "chk_unchanged_path_witness",
+    "include_unchanged_widens_witness",
 ]
 RULE = ("scenario = (source tree, target tree, unversioned paths, realisation mode); case = (scenario, filter, "
         "include_unchanged, want_unversioned, require_versioned); distinct by canonical trees + query; "
@@ -918,6 +919,7 @@ def finish(ctx, cases, lines, impls, outs_by_case):
 
 
 def run(ctx, nscen=None):
+    os.environ["RUST_BACKTRACE"] = "0"
     nscen = nscen or ctx.pick(110, 900)
     nfilters = ctx.pick(5, 8)
     jobs = []
